@@ -21,6 +21,7 @@ type hop struct {
 	At   string `json:"at,omitempty"`   // tick: before | at | after | far  (relative to the earliest deadline)
 	RTO  int64  `json:"rto,omitempty"`  // setrto, nanoseconds
 	Junk string `json:"junk,omitempty"` // garbage datagram (hex)
+	Re   *hop   `json:"re,omitempty"`   // start only: a Start issued from INSIDE this transaction's handler when it completes
 }
 
 type clientCase struct {
@@ -133,6 +134,12 @@ type mtx struct {
 }
 
 type inst struct {
+	re       *hop   // nested Start to issue from the handler (pending)
+	reInst   int    // instance number of the nested transaction once the model has scheduled it (0 = none)
+	reWant   string // expected result class of the nested Start
+	reGot    string
+	reDone   bool
+	reMsg    *stun.Message
 	id       int
 	started  bool // Start/Do returned nil
 	isDo     bool
@@ -215,7 +222,77 @@ func (e *engine) handlerFor(instNo int) stun.Handler {
 		}
 		e.mu.Lock()
 		e.events = append(e.events, h)
+		var nested *inst
+		nestedNo := 0
+		if instNo >= 0 && instNo < len(e.insts) {
+			if in := e.insts[instNo]; in.reInst > 0 && !in.reDone && h.Kind != "closed" {
+				in.reDone = true
+				nested, nestedNo = e.insts[in.reInst], in.reInst
+			}
+		}
 		e.mu.Unlock()
+		if nested != nil {
+			// re-entrant use: a new transaction is started from inside the handler
+			err := e.w.Client.Start(nested.reMsg, e.handlerFor(nestedNo))
+			e.mu.Lock()
+			e.insts[instNo].reGot = startClass(err)
+			e.mu.Unlock()
+		}
+	}
+}
+
+func startClass(err error) string {
+	switch {
+	case err == nil:
+		return "nil"
+	case errors.Is(err, stun.ErrClientClosed):
+		return "closed"
+	case errors.Is(err, stun.ErrTransactionExists):
+		return "exists"
+	case isWriteErr(err):
+		return "writeerr"
+	}
+
+	return "other:" + err.Error()
+}
+
+// modelNested is called by the model whenever it delivers a completing event (response, timeout,
+// write error) to transaction instNo: if that transaction carries a nested Start, the model
+// performs it at time now, after the completed transaction has left the table.
+func (e *engine) modelNested(instNo int, ex *expect, now time.Duration) {
+	in := e.insts[instNo]
+	if in.re == nil || in.reInst > 0 {
+		return
+	}
+	re := in.re
+	size := re.Size
+	if size < 20 {
+		size = 20
+	}
+	m := request(re.ID, size)
+	snapshot := append([]byte(nil), m.Raw...)
+	nin := &inst{id: re.ID, msg: m, reMsg: m}
+	e.mu.Lock()
+	no := len(e.insts)
+	e.insts = append(e.insts, nin)
+	in.reInst = no
+	e.mu.Unlock()
+	in.reWant = "nil"
+	_, exists := e.tx[re.ID]
+	switch {
+	case e.closed:
+		in.reWant = "closed"
+	case exists:
+		in.reWant = "exists"
+	default:
+		ex.writes[string(snapshot)]++
+		if e.failArm[re.ID] > 0 {
+			e.failArm[re.ID]--
+			in.reWant = "writeerr"
+		} else {
+			e.tx[re.ID] = &mtx{inst: no, id: re.ID, deadline: now + e.rtoCur, raw: snapshot, rto: e.rtoCur}
+			nin.started = true
+		}
 	}
 }
 
@@ -264,6 +341,19 @@ func (e *engine) compare(step string, ex *expect) error {
 			return fmt.Errorf("%s: handler of transaction %d (id index %d) received an event for id %x", step, h.Inst, e.insts[h.Inst].id, h.TID)
 		}
 	}
+	e.mu.Lock()
+	for i, in := range e.insts {
+		if in.reInst > 0 && in.reWant != "" {
+			got, want := in.reGot, in.reWant
+			in.reWant = ""
+			if got != want {
+				e.mu.Unlock()
+
+				return fmt.Errorf("%s: Start issued from inside the handler of transaction %d returned %q, specification says %s (the completed transaction has left the table before its handler runs)", step, i, got, want)
+			}
+		}
+	}
+	e.mu.Unlock()
 	wr := e.takeWrites()
 	gotW := map[string]int{}
 	for _, r := range wr {
@@ -350,8 +440,13 @@ func (e *engine) step(i int, h hop) error {
 		m := request(h.ID, size)
 		snapshot := append([]byte(nil), m.Raw...)
 		in := &inst{id: h.ID, isDo: h.Op == "do", msg: m}
+		if h.Op == "start" {
+			in.re = h.Re
+		}
+		e.mu.Lock()
 		instNo := len(e.insts)
 		e.insts = append(e.insts, in)
+		e.mu.Unlock()
 		// model
 		wantErr := "nil"
 		_, exists := e.tx[h.ID]
@@ -467,10 +562,12 @@ func (e *engine) step(i int, h hop) error {
 		}
 		if r, ok := ref.Parse(d); ok {
 			hit := false
+			nestedFor := -1
 			for id, t := range e.tx {
 				if txID(id) == r.TID {
 					ex.events = append(ex.events, hev{Inst: t.inst, Kind: "response", Raw: d})
 					e.insts[t.inst].expected++
+					nestedFor = t.inst
 					if t.k > 0 {
 						e.st.nonFirstResponse = true
 					}
@@ -484,6 +581,9 @@ func (e *engine) step(i int, h hop) error {
 
 					break
 				}
+			}
+			if nestedFor >= 0 {
+				e.modelNested(nestedFor, ex, now)
 			}
 			if !hit {
 				e.st.nonFirstResponse = e.st.nonFirstResponse || h.Op == "respond"
@@ -537,6 +637,7 @@ func (e *engine) step(i int, h hop) error {
 				e.insts[t.inst].expected++
 				e.st.nonFirstResponse = true
 				delete(e.tx, id)
+				e.modelNested(t.inst, ex, target)
 
 				continue
 			}
@@ -553,6 +654,7 @@ func (e *engine) step(i int, h hop) error {
 				e.insts[t.inst].expected++
 				e.st.nonFirstResponse = true
 				delete(e.tx, id)
+				e.modelNested(t.inst, ex, target)
 			}
 		}
 		e.w.Tick(target)
